@@ -306,3 +306,27 @@ Proof.
       [rewrite !len_cons in H4; lia|].
     change (N.to_nat 4) with 4%nat. cbn [firstn skipn ubind get_u16]. discriminate.
 Qed.
+
+(* ---- the client's method selection ---- *)
+Lemma existsb_zero ms : existsb (N.eqb 0) ms = true <-> In 0 ms.
+Proof.
+  rewrite existsb_exists. split.
+  - intros (x & I & E). apply N.eqb_eq in E. now subst x.
+  - intros I. exists 0. split; [exact I|reflexivity].
+Qed.
+
+(* "no authentication required" is selected if and only if the client offers it, wherever it stands in the list;
+   otherwise the answer is "no acceptable method" and nothing else *)
+Theorem client_selects_noauth r ms rest o :
+  v5_read_auth_methods r = Done ms rest -> client_dialog5 (5 :: r) = Some o ->
+  (In 0 ms -> firstn 2 o = [5; 0]) /\ (~ In 0 ms -> o = [5; 255]).
+Proof.
+  intros H D. cbn [client_dialog5] in D. rewrite H in D.
+  destruct (existsb (N.eqb 0) ms) eqn:E.
+  - apply existsb_zero in E. split; [intros _|tauto].
+    destruct (v5_read_request rest) as [[[cmd a] p] rest'| |e w].
+    + destruct ((cmd =? 1) || (cmd =? 3)); [discriminate|]. inversion D. reflexivity.
+    + inversion D. reflexivity.
+    + inversion D. reflexivity.
+  - split; [intros I; apply existsb_zero in I; congruence|]. intros _. inversion D. reflexivity.
+Qed.
